@@ -5,6 +5,8 @@
 
 package reedsolomon
 
+import "github.com/klauspost/cpuid/v2"
+
 // VerifOpts reports the derived options of an encoder.
 type VerifOpts struct {
 	Kind                                     string // "rs8", "leo8", "leo16"
@@ -201,3 +203,8 @@ func (v *VerifErrorBitfield) IsNeeded(mip, bit int) bool { return v.e.isNeeded(m
 
 // Stream helpers.
 func VerifTrimShards(in [][]byte, size int) [][]byte { return trimShards(in, size) }
+
+// VerifCPU reports the cpuid values New derives its split parameters from.
+func VerifCPU() (l1d, l2, threadsPerCore, physicalCores int) {
+	return cpuid.CPU.Cache.L1D, cpuid.CPU.Cache.L2, cpuid.CPU.ThreadsPerCore, cpuid.CPU.PhysicalCores
+}
